@@ -397,6 +397,49 @@ func findMergeForkNode(v Exp, call *CallGraphStage) *RefExp {
 	return nil
 }
 
+// coforkedCalls returns the calls, other than the merged one, which iterate
+// over the very same source as the merged call and which references in the
+// given value still fork over with an undetermined index.
+//
+// A call which is mapped over the merged output of a mapped call (for example
+// `map call P(e = split S.flag)` after `map call S(...)`) forks in lockstep
+// with it: fixing the index of one fixes the index of the other.
+func (s *MergeExp) coforkedCalls(v Exp,
+	fork map[*CallStm]CollectionIndex) []*CallStm {
+	over := s.MergeOver
+	for ms, ok := over.(*MergeExp); ok; ms, ok = over.(*MergeExp) {
+		over = ms.MergeOver
+	}
+	if _, ok := over.(*MapCallSet); !ok {
+		return nil
+	}
+	var result []*CallStm
+	for _, ref := range v.FindRefs() {
+		for c, i := range ref.Forks {
+			if c == s.GetCall() {
+				continue
+			}
+			if u, ok := i.(unknownIndex); !ok || u.src != over {
+				continue
+			}
+			if _, ok := fork[c]; ok {
+				continue
+			}
+			found := false
+			for _, r := range result {
+				if r == c {
+					found = true
+					break
+				}
+			}
+			if !found {
+				result = append(result, c)
+			}
+		}
+	}
+	return result
+}
+
 func (s *MergeExp) BindingPath(bindPath string,
 	fork map[*CallStm]CollectionIndex,
 	lookup *TypeLookup) (Exp, error) {
@@ -468,8 +511,15 @@ func (s *MergeExp) BindingPath(bindPath string,
 		if fork == nil {
 			fork = make(map[*CallStm]CollectionIndex)
 		}
+		cofork := s.coforkedCalls(v, fork)
+		for _, c := range cofork {
+			defer delete(fork, c)
+		}
 		for i := range arr.Value {
 			fork[s.GetCall()] = arrayIndex(i)
+			for _, c := range cofork {
+				fork[c] = arrayIndex(i)
+			}
 			iv, err := v.BindingPath("", fork, lookup)
 			if err != nil {
 				errs = append(errs, err)
@@ -501,8 +551,15 @@ func (s *MergeExp) BindingPath(bindPath string,
 		if fork == nil {
 			fork = make(map[*CallStm]CollectionIndex)
 		}
+		cofork := s.coforkedCalls(v, fork)
+		for _, c := range cofork {
+			defer delete(fork, c)
+		}
 		for i := range keys {
 			fork[s.GetCall()] = mapKeyIndex(i)
+			for _, c := range cofork {
+				fork[c] = mapKeyIndex(i)
+			}
 			iv, err := v.BindingPath("", fork, lookup)
 			if err != nil {
 				errs = append(errs, err)
